@@ -56,7 +56,7 @@ def run_case(case, rng):
             sp.R[key] = float(rng.choice(costs))
     else:
         sp = G.random_spec(rng, "proper", n_max=n_max, allow_implicit=False,
-                           reward_scale=rng.choice([1.0, 1.0, 1.0, 30.0]))
+                           reward_scale=rng.choice([1.0, 1.0, 1.0, 30.0, 1e7]))
     # initial mass on absorbing states on purpose
     if rng.random() < 0.35 and sp.flag:
         ab = rng.choice(sorted(sp.flag, key=repr))
